@@ -259,12 +259,18 @@ func c04Total(args []string) error {
 	}
 	var shapes []poolVal
 	for _, lead := range []string{"", "+", "-", ".", " ", "@", "#", "%", ":", ",", "tel:+", "\\", "\"", "é", "😀", "0", "\n", "(", "{", "$"} {
-		for _, body := range []string{"1234567890123", "abcdefghijklm"} {
+		// digits and letters of ASCII, digits of other scripts (Arabic-Indic, Bengali, full-width: what \d / unicode.IsDigit accept
+		// and strconv / decimal do not), letters beyond ASCII
+		for _, bodyS := range []string{"1234567890123", "abcdefghijklm", "١٢٣٤٥٦٧٨٩٠١٢٣", "১২৩৪৫৬৭৮৯০১২৩", "１２３４５６７８９０１２３", "àéîõüñçßøåæœþ"} {
+			body := []rune(bodyS)
 			for k := 0; k <= 13; k++ {
 				if lead == "" && k == 0 {
 					continue
 				}
-				t := lead + body[:k]
+				if bodyS[0] > 127 && k > 4 && k%4 != 0 {
+					continue // the non-ASCII bodies at fewer lengths
+				}
+				t := lead + string(body[:k])
 				// a text that reads as a number of six or more digits is a huge magnitude wherever a count is expected
 				isHuge := func(t string) bool {
 					d, err := decimal.NewFromString(strings.TrimSpace(t))
